@@ -493,8 +493,16 @@ func (w *World) growBig(r *Run) {
 		// exactly as many slices as the format allows (32768), or one less
 		w.S = []int{4, 8, 16, 32}[t.Draw(4, "limit-S")]
 		others := 0
-		for _, f := range w.Files[1:] {
-			others += (len(f.Data) + w.S - 1) / w.S
+		for i := 1; i < len(w.Files); i++ {
+			// (the other files were generated for another slice size: with
+			// tiny slices, low-entropy content would mean thousands of
+			// identical slices, which gopar credits quadratically)
+			if len(w.Files[i].Data)/w.S > 300 {
+				d := expandContent(ckRandom, t.Draw64(0, "limit-other-seed"), len(w.Files[i].Data), w.S)
+				w.Files[i].Data = d
+				w.Disk.Put(w.Path(i), d)
+			}
+			others += (len(w.Files[i].Data) + w.S - 1) / w.S
 		}
 		for others > 30000 && len(w.Files) > 1 {
 			last := len(w.Files) - 1
